@@ -452,7 +452,7 @@ class Angle(object):
         d, m, s, sign = Angle.deg2dms(self._deg)
         if n_dec >= 0:
             s = round(s, n_dec)
-            if abs(s - 60.0) < TOL:
+            if s >= 60.0:
                 s = 0.0
                 m += 1
             if abs(m - 60.0) < TOL:
